@@ -250,8 +250,21 @@ func (w *worker[T, JobType]) processNextJob() error {
 func (w *worker[T, JobType]) dispatchNextJob(mayDispatch func() bool) error {
 	// Count the job as in flight before it leaves the queue, so that at every moment it is
 	// visible either in the queue length or in curProcessing (WaitUntilFinished reads both).
-	w.curProcessing.Add(1)
-	dispatched := false
+	// The slot is taken with compare-and-swap so that curProcessing stays within the limit even
+	// if an event loop that Restart has superseded is still on its way out next to the new one.
+	for {
+		processing := w.curProcessing.Load()
+
+		if processing >= w.concurrency.Load() {
+			return nil
+		}
+
+		if w.curProcessing.CompareAndSwap(processing, processing+1) {
+			break
+		}
+	}
+
+	dispatched, handOver := false, false
 	vhook("disp.reserve")
 
 	defer func() {
@@ -260,12 +273,19 @@ func (w *worker[T, JobType]) dispatchNextJob(mayDispatch func() bool) error {
 			w.releaseWaiters(w.curProcessing.Add(^uint32(0)))
 			vhook("disp.release")
 		}
+
+		// the slot held for a moment may have made the worker's current event loop see no free
+		// capacity: let it look again now that the slot is back
+		if handOver {
+			w.notifyToPullNextJobs()
+		}
 	}()
 
 	// Pause, Stop and Restart store the new status first and then wait for curProcessing to
 	// drop to zero. Checking again now that curProcessing is raised means that either they see
 	// this dispatch and wait for it, or it sees them and does not start anything.
 	if mayDispatch != nil && !mayDispatch() {
+		handOver = true
 		return nil
 	}
 
